@@ -207,7 +207,7 @@ pub enum CreditMode { Manual, Auto(SequenceNo) }
 //@@ subst `mpsc::Sender<SessionControl>` => `SessionControlTx` rule=R9
 //@@ subst `mpsc::Sender<LinkFrame>` => `LinkFrameTx` rule=R9
 //@@ subst `mpsc::Receiver<LinkFrame>` => `LinkFrameRx` rule=R9
-//@@ subst `Option<Box<IncompleteTransfer>>` => `Option<IncompleteTransfer>, pub received: Ghost<Seq<u8>>` rule=R8
+//@@ subst `Option<Box<IncompleteTransfer>>` => `Option<IncompleteTransfer>, pub received: Ghost<Seq<u8>>, pub credit_checks: Ghost<nat>` rule=R8
 //@@ end
 
 impl ReceiverInner {
@@ -225,12 +225,14 @@ impl ReceiverInner {
     fn dispose_accept(&mut self, d: &Delivery) -> (r: Result<(), DispositionError>)
         requires old(self).buffered() =~= old(self).received@,      // [C16.recv.no-await-while-holding-a-delivery] at a cancellation point every payload octet already taken from the channel for a delivery not yet returned is still held by the receiver ITSELF (its reassembly buffer), not only by locals of the future being polled: otherwise dropping the recv future there loses the delivery
         ensures final(self).incomplete_transfer == old(self).incomplete_transfer, final(self).link == old(self).link, final(self).received == old(self).received,
+            final(self).credit_checks@ == old(self).credit_checks@ + 1, final(self).credit_mode == old(self).credit_mode,     // ReceiverInner::dispose ends with update_credit_if_auto (unit LINKFLOW): the automatic top-up is considered
     { unimplemented!() }
     /// `self.update_credit_if_auto(n).await` (a flow queued on the same bounded channel): a cancellation point like the one above
     #[verifier::external_body]
     fn update_credit_if_auto(&mut self, processed: u32) -> (r: Result<(), DispositionError>)
         requires old(self).buffered() =~= old(self).received@,      // [C16.recv.no-await-while-holding-a-delivery]
         ensures final(self).incomplete_transfer == old(self).incomplete_transfer, final(self).link == old(self).link, final(self).received == old(self).received,
+            final(self).credit_checks@ == old(self).credit_checks@ + 1, final(self).credit_mode == old(self).credit_mode,
     { unimplemented!() }
 
     #[verifier::external_body]
@@ -297,6 +299,7 @@ impl ReceiverInner {
         final(self).incomplete_transfer is None,                                                           // [C10.complete.buffer-reset] the final frame always empties the buffer: the next delivery starts clean
         r is Ok ==> r->Ok_0 is Some && r->Ok_0->Some_0.bytes@ =~= old(self).buffered() + payload@,         // [C10.complete.bytes] exactly one delivery, decoded from the concatenation of all frame payloads in arrival order [C01.reassembly.bytes]
         r is Ok && old(self).incomplete_transfer is None ==> r->Ok_0->Some_0.performative == transfer,
+        r is Ok && old(self).credit_mode is Auto ==> final(self).credit_checks@ > old(self).credit_checks@,      // [C09.auto.replenish-on-receive] in automatic credit mode the top-up is considered whenever a delivery is handed to the application, not only when the application disposes of one: a pre-settled stream (nothing to dispose of) or an application that settles late or never must not starve a sender that respects credit
 //@@ entry
         self.received = Ghost(self.buffered() + payload@);
         proof {
